@@ -60,6 +60,40 @@ fn native_spec() {
         if m.try_remove_one::<u16>("port").ok().flatten() != Some(80) || m.try_get_one::<u16>("port").ok().flatten().is_some() {
             println!("SPEC-REPLAY MISMATCH target={target} case=a correctly typed remove did not take the value out");
         }
+    } else if target == "trailing_positional" {
+        // C05: every token after the first bare `--` reaches the positionals verbatim and in order
+        let toks = ["x", "--flag", "-f", "--opt=v", "sub", "--", "", "--help", "-h"];
+        for shape in ["multi", "multi_then_single"] {
+            for a in 0..toks.len() {
+                for b in 0..toks.len() {
+                    let tail = vec!["v0", toks[a], toks[b], "vz"];
+                    let mut cmd = Command::new("p")
+                        .arg(Arg::new("flag").long("flag").short('f').action(ArgAction::SetTrue))
+                        .arg(Arg::new("opt").long("opt").action(ArgAction::Set))
+                        .subcommand(Command::new("sub"));
+                    cmd = if shape == "multi" {
+                        cmd.arg(Arg::new("files").index(1).num_args(1..).action(ArgAction::Append))
+                    } else {
+                        cmd.arg(Arg::new("files").index(1).num_args(1..).required(true).action(ArgAction::Append))
+                            .arg(Arg::new("target").index(2).required(true))
+                    };
+                    let mut argv = vec!["p", "--"];
+                    argv.extend(tail.iter().copied());
+                    match cmd.try_get_matches_from(argv.clone()) {
+                        Ok(m) => {
+                            let mut got: Vec<String> = m.get_many::<String>("files").map(|v| v.cloned().collect()).unwrap_or_default();
+                            if shape != "multi" {
+                                got.extend(m.get_one::<String>("target").cloned());
+                            }
+                            if got != tail || m.get_flag("flag") || m.get_one::<String>("opt").is_some() || m.subcommand_name().is_some() {
+                                println!("SPEC-REPLAY MISMATCH target=trailing_positional case={argv:?} ({shape}): positionals got {got:?}, flag={} opt={:?} sub={:?}", m.get_flag("flag"), m.get_one::<String>("opt"), m.subcommand_name());
+                            }
+                        }
+                        Err(e) => println!("SPEC-REPLAY MISMATCH target=trailing_positional case={argv:?} ({shape}): rejected as {:?} although every token follows `--`", e.kind()),
+                    }
+                }
+            }
+        }
     } else if target == "match_arg_error" {
         // C10: the error kind names a rule the input really breaks
         for acws in [false, true] {
